@@ -147,7 +147,7 @@ theorem runBody_declined (i : Nat) (t : Task) (e : Env) (s : State) (hd : Declin
 from, at the time of the invocation; on success the stores are untouched, on failure `OnError`
 removes the checksum (method checksum) / the marker (method timestamp). -/
 theorem runBody_effect (i : Nat) (t : Task) (e : Env) (s : State) (hp : Passes t e) :
-    ∃ ok, (runBody cfg H pr i t false e s).1.log = s.log ++ [⟨i, fpNow H pr t s.files, e.now, ok⟩] ∧
+    ∃ ok, (runBody cfg H pr i t false e s).1.log = s.log ++ [⟨i, fpNow H pr t s.files, e.now, ok, srcList pr t s.files⟩] ∧
       (ok = true → (runBody cfg H pr i t false e s).1.sums = s.sums ∧ (runBody cfg H pr i t false e s).1.marks = s.marks) ∧
       (ok = false → (runBody cfg H pr i t false e s).1.sums = (if Cs t then adel s.sums (sumKey t) else s.sums) ∧
         (runBody cfg H pr i t false e s).1.marks = (if Ts t then adel s.marks (tsKey t) else s.marks) ∧
